@@ -112,6 +112,119 @@ theorem mem_mid_cons {α : Type} {mid low : List α} {g f : α} (h : f ∈ mid +
 theorem markSet_append (P : Key → Bool) (a b : List Frame) : markSet P (a ++ b) = markSet P a ++ markSet P b := by
   simp [markSet]
 
+/-- what the search of `exit_scc` returns when the reader (top frame) asks for the computing query
+    `k`: the frames `mids` between the reader and `k` (`k` included: the last of them, unless `k` is
+    the reader itself) are the ones marked. -/
+theorem mark_key {p : Program} {st : St} (h : Inv p st) (nm : NoMarks st.stack)
+    {top : Frame} {rest : List Frame} (hs : st.stack = top :: rest) {k : Key}
+    (hk : k ∈ keys st.stack) :
+    ∃ (mids : List Frame), (∀ f ∈ mids, f ∈ rest) ∧ (top.key ∉ keys mids) ∧
+      (∃ low, rest = mids ++ low ∧ (mids = [] → k = top.key)) ∧
+      (k = top.key ∨ k ∈ keys mids) ∧
+      (∀ f ∈ mids, ∃ ch, (ch ∈ f.callees) ∧ True) ∧
+      checkCyclic ((({ top with callees := addCallee k top.callees } : Frame) :: rest).length + 1) top.key (({ top with callees := addCallee k top.callees } : Frame) :: rest) k
+        = .ok (true, markSet (fun x => (keys mids).contains x || (x == top.key && k == top.key)) (({ top with callees := addCallee k top.callees } : Frame) :: rest)) ∧
+      (∀ E : Key → Key → Prop, (∀ f ∈ ({ top with callees := addCallee k top.callees } : Frame) :: rest, ∀ x ∈ f.callees, E f.key x) →
+        ∀ x, (x = top.key ∨ x ∈ keys mids) → OnCycle E x) ∧
+      (mids = [] ∨ ∃ mid g, mids = mid ++ [g] ∧ g.key = k) := by
+  have ndk : (keys (top :: rest)).Nodup := by rw [← hs]; exact h.nodup_keys
+  have ndk' := ndk
+  simp only [keys, List.map_cons, List.nodup_cons] at ndk'
+  have hdisj := h.disjoint
+  have hso := h.stackOK
+  rw [hs] at hso
+  let top1 : Frame := { top with callees := addCallee k top.callees }
+  have ndk1 : (keys (top1 :: rest)).Nodup := ndk
+  have hkin : k ∈ top1.callees := mem_addCallee.2 (Or.inr rfl)
+  show ∃ (mids : List Frame), (∀ f ∈ mids, f ∈ rest) ∧ (top.key ∉ keys mids) ∧
+      (∃ low, rest = mids ++ low ∧ (mids = [] → k = top.key)) ∧
+      (k = top.key ∨ k ∈ keys mids) ∧
+      (∀ f ∈ mids, ∃ ch, (ch ∈ f.callees) ∧ True) ∧
+      checkCyclic ((top1 :: rest).length + 1) top.key (top1 :: rest) k
+        = .ok (true, markSet (fun x => (keys mids).contains x || (x == top.key && k == top.key)) (top1 :: rest)) ∧
+      (∀ E : Key → Key → Prop, (∀ f ∈ top1 :: rest, ∀ x ∈ f.callees, E f.key x) →
+        ∀ x, (x = top.key ∨ x ∈ keys mids) → OnCycle E x) ∧
+      (mids = [] ∨ ∃ mid g, mids = mid ++ [g] ∧ g.key = k)
+  by_cases hself : k = top.key
+  · refine ⟨[], by simp, by simp [keys], ⟨rest, rfl, fun _ => hself⟩, Or.inl hself, by simp, ?_, ?_, Or.inl rfl⟩
+    · have hf : findFrame k (top1 :: rest) = some top1 := by simp [findFrame, hself, top1]
+      have : top.key ∈ top1.callees := by rw [← hself]; exact hkin
+      simp only [checkCyclic, hf, this, if_true, markFrame_eq_markSet]
+      congr 3
+      funext x
+      simp [keys, hself]
+    · intro E hE x hx
+      have hx' : x = top.key := by
+        rcases hx with rfl | hx
+        · rfl
+        · simp [keys] at hx
+      subst hx'
+      exact ⟨top.key, by have := hE top1 (by simp) k hkin; rw [hself] at this; exact this, .refl _⟩
+  · have hkr : k ∈ keys rest := by
+      rw [hs] at hk
+      simp only [keys, List.map_cons, List.mem_cons] at hk
+      rcases hk with hk | hk
+      · exact absurd hk hself
+      · exact hk
+    obtain ⟨g, hg, hgk⟩ := List.mem_map.1 hkr
+    obtain ⟨mid, low, hrest⟩ := List.append_of_mem hg
+    have hchain : ChainBelow (mkeys st.memo) top.key (mid ++ [g]) :=
+      (chainBelow_split mid g low top.key (by rw [← hrest]; exact hso.2)).1
+    have hmem : ∀ f ∈ mid ++ [g], f ∈ top1 :: rest := by
+      intro f hf
+      apply List.mem_cons_of_mem
+      rw [hrest]
+      exact mem_mid_cons hf
+    have htn : top.key ∉ keys (mid ++ [g]) := by
+      intro hin
+      apply ndk'.1
+      obtain ⟨f, hf, hfk⟩ := List.mem_map.1 hin
+      rcases List.mem_cons.1 (hmem f hf) with rfl | hfr
+      · exact absurd hfk (by
+          intro _
+          have : top1 ∈ rest := by
+            rw [hrest]
+            exact mem_mid_cons hf
+          exact ndk'.1 (List.mem_map.2 ⟨top1, this, rfl⟩))
+      · exact List.mem_map.2 ⟨f, hfr, hfk⟩
+    have hcc := checkCyclic_chain (M := mkeys st.memo) (s0 := top1 :: rest) ndk1
+      (fun x hx => by have := hdisj x hx; rw [hs] at this; exact this)
+      top.key (by simp [keys, top1]) mid.length mid g rfl hmem htn hchain (top1 :: rest) rfl
+      ((top1 :: rest).length + 1) (by
+        have : mid.length ≤ rest.length := by rw [hrest]; simp
+        simp only [List.length_cons]; omega)
+    refine ⟨mid ++ [g], ?_, htn, ⟨low, by rw [hrest]; simp, fun e => by simp at e⟩, Or.inr ?_, ?_, ?_, ?_, Or.inr ⟨mid, g, rfl, hgk⟩⟩
+    · intro f hf
+      rw [hrest]
+      exact mem_mid_cons hf
+    · rw [← hgk]; simp [keys]
+    · intro f hf
+      obtain ⟨ch, e, _, _⟩ := chain_paths (E := fun a b => ∃ f ∈ mid ++ [g], f.key = a ∧ b ∈ f.callees)
+        mid g top.key hchain (fun f hf x hx => ⟨f, hf, rfl, hx⟩) f hf
+      obtain ⟨f', hf', hk', hx'⟩ := e
+      exact ⟨ch, by
+        -- the frame with this key is `f` itself (distinct keys)
+        have h1 : findFrame f.key (top1 :: rest) = some f := findFrame_of_mem ndk1 (hmem f hf)
+        have h2 : findFrame f'.key (top1 :: rest) = some f' := findFrame_of_mem ndk1 (hmem f' hf')
+        rw [hk'] at h2
+        have : f = f' := Option.some.inj (h1.symm.trans h2)
+        rw [this]; exact hx', trivial⟩
+    · rw [← hgk, hcc]
+      congr 3
+      funext x
+      simp [hself, hgk]
+    · intro E hE x hx
+      have paths := chain_paths (E := E) mid g top.key hchain (fun f hf => hE f (hmem f hf))
+      have etop : E top.key g.key := by
+        have := hE top1 (by simp) k hkin
+        rw [hgk]; exact this
+      rcases hx with rfl | hx
+      · obtain ⟨ch, e, pth, _⟩ := paths g (by simp)
+        exact ⟨g.key, etop, .head e pth⟩
+      · obtain ⟨f, hf, rfl⟩ := List.mem_map.1 hx
+        obtain ⟨ch, e, pth, pg⟩ := paths f hf
+        exact ⟨ch, e, (pth.trans (.head etop (.refl _))).trans pg⟩
+
 /-- The reader (top frame, key `c`) asks for a computing query `k`: `check_cyclic` succeeds within
     the fuel the code's recursion would need, and marks the frames from `k` up to the reader. -/
 theorem inv_mark {p : Program} {st : St} (h : Inv p st) (nm : NoMarks st.stack)
@@ -133,94 +246,11 @@ theorem inv_mark {p : Program} {st : St} (h : Inv p st) (nm : NoMarks st.stack)
   have ndk1 : (keys (top1 :: rest)).Nodup := ndk
   have hkin : k ∈ top1.callees := mem_addCallee.2 (Or.inr rfl)
   -- the set of marked keys and what the search returns
-  have key : ∃ (mids : List Frame), (∀ f ∈ mids, f ∈ rest) ∧ (top.key ∉ keys mids) ∧
-      (∃ low, rest = mids ++ low ∧ (mids = [] → k = top.key)) ∧
-      (k = top.key ∨ k ∈ keys mids) ∧
-      (∀ f ∈ mids, ∃ ch, (ch ∈ f.callees) ∧ True) ∧
-      checkCyclic ((top1 :: rest).length + 1) top.key (top1 :: rest) k
-        = .ok (true, markSet (fun x => (keys mids).contains x || (x == top.key && k == top.key)) (top1 :: rest)) ∧
-      (∀ E : Key → Key → Prop, (∀ f ∈ top1 :: rest, ∀ x ∈ f.callees, E f.key x) →
-        ∀ x, (x = top.key ∨ x ∈ keys mids) → OnCycle E x) := by
-    by_cases hself : k = top.key
-    · refine ⟨[], by simp, by simp [keys], ⟨rest, rfl, fun _ => hself⟩, Or.inl hself, by simp, ?_, ?_⟩
-      · have hf : findFrame k (top1 :: rest) = some top1 := by simp [findFrame, hself, top1]
-        have : top.key ∈ top1.callees := by rw [← hself]; exact hkin
-        simp only [checkCyclic, hf, this, if_true, markFrame_eq_markSet]
-        congr 3
-        funext x
-        simp [keys, hself]
-      · intro E hE x hx
-        have hx' : x = top.key := by
-          rcases hx with rfl | hx
-          · rfl
-          · simp [keys] at hx
-        subst hx'
-        exact ⟨top.key, by have := hE top1 (by simp) k hkin; rw [hself] at this; exact this, .refl _⟩
-    · have hkr : k ∈ keys rest := by
-        rw [hs] at hk
-        simp only [keys, List.map_cons, List.mem_cons] at hk
-        rcases hk with hk | hk
-        · exact absurd hk hself
-        · exact hk
-      obtain ⟨g, hg, hgk⟩ := List.mem_map.1 hkr
-      obtain ⟨mid, low, hrest⟩ := List.append_of_mem hg
-      have hchain : ChainBelow (mkeys st.memo) top.key (mid ++ [g]) :=
-        (chainBelow_split mid g low top.key (by rw [← hrest]; exact hso.2)).1
-      have hmem : ∀ f ∈ mid ++ [g], f ∈ top1 :: rest := by
-        intro f hf
-        apply List.mem_cons_of_mem
-        rw [hrest]
-        exact mem_mid_cons hf
-      have htn : top.key ∉ keys (mid ++ [g]) := by
-        intro hin
-        apply ndk'.1
-        obtain ⟨f, hf, hfk⟩ := List.mem_map.1 hin
-        rcases List.mem_cons.1 (hmem f hf) with rfl | hfr
-        · exact absurd hfk (by
-            intro _
-            have : top1 ∈ rest := by
-              rw [hrest]
-              exact mem_mid_cons hf
-            exact ndk'.1 (List.mem_map.2 ⟨top1, this, rfl⟩))
-        · exact List.mem_map.2 ⟨f, hfr, hfk⟩
-      have hcc := checkCyclic_chain (M := mkeys st.memo) (s0 := top1 :: rest) ndk1
-        (fun x hx => by have := hdisj x hx; rw [hs] at this; exact this)
-        top.key (by simp [keys, top1]) mid.length mid g rfl hmem htn hchain (top1 :: rest) rfl
-        ((top1 :: rest).length + 1) (by
-          have : mid.length ≤ rest.length := by rw [hrest]; simp
-          simp only [List.length_cons]; omega)
-      refine ⟨mid ++ [g], ?_, htn, ⟨low, by rw [hrest]; simp, fun e => by simp at e⟩, Or.inr ?_, ?_, ?_, ?_⟩
-      · intro f hf
-        rw [hrest]
-        exact mem_mid_cons hf
-      · rw [← hgk]; simp [keys]
-      · intro f hf
-        obtain ⟨ch, e, _, _⟩ := chain_paths (E := fun a b => ∃ f ∈ mid ++ [g], f.key = a ∧ b ∈ f.callees)
-          mid g top.key hchain (fun f hf x hx => ⟨f, hf, rfl, hx⟩) f hf
-        obtain ⟨f', hf', hk', hx'⟩ := e
-        exact ⟨ch, by
-          -- the frame with this key is `f` itself (distinct keys)
-          have h1 : findFrame f.key (top1 :: rest) = some f := findFrame_of_mem ndk1 (hmem f hf)
-          have h2 : findFrame f'.key (top1 :: rest) = some f' := findFrame_of_mem ndk1 (hmem f' hf')
-          rw [hk'] at h2
-          have : f = f' := Option.some.inj (h1.symm.trans h2)
-          rw [this]; exact hx', trivial⟩
-      · rw [← hgk, hcc]
-        congr 3
-        funext x
-        simp [hself, hgk]
-      · intro E hE x hx
-        have paths := chain_paths (E := E) mid g top.key hchain (fun f hf => hE f (hmem f hf))
-        have etop : E top.key g.key := by
-          have := hE top1 (by simp) k hkin
-          rw [hgk]; exact this
-        rcases hx with rfl | hx
-        · obtain ⟨ch, e, pth, _⟩ := paths g (by simp)
-          exact ⟨g.key, etop, .head e pth⟩
-        · obtain ⟨f, hf, rfl⟩ := List.mem_map.1 hx
-          obtain ⟨ch, e, pth, pg⟩ := paths f hf
-          exact ⟨ch, e, (pth.trans (.head etop (.refl _))).trans pg⟩
-  obtain ⟨mids, hmids, htn, ⟨low, hlow, _⟩, hkmark, _, hcc, hcyc⟩ := key
+  obtain ⟨mids, hmids, htn, ⟨low, hlow, _⟩, hkmark, _, hcc', hcyc', _⟩ := mark_key h nm hs hk
+  have hcc : checkCyclic ((top1 :: rest).length + 1) top.key (top1 :: rest) k
+      = .ok (true, markSet (fun x => (keys mids).contains x || (x == top.key && k == top.key)) (top1 :: rest)) := hcc'
+  have hcyc : ∀ E : Key → Key → Prop, (∀ f ∈ top1 :: rest, ∀ x ∈ f.callees, E f.key x) →
+      ∀ x, (x = top.key ∨ x ∈ keys mids) → OnCycle E x := hcyc'
   let Q : Key → Bool := fun x => (x == top.key) || ((keys mids).contains x || (x == top.key && k == top.key))
   have hQ : ∀ x, Q x = true ↔ (x = top.key ∨ x ∈ keys mids) := by
     intro x
